@@ -98,8 +98,13 @@ class StmtMixin:
             return
         fr = self.frames[-1]
         dep = set()
-        for c, _ in fr.ctrl:
-            dep |= self.sym(c)
+        # which of several *values* comes back depends on the conditions the return sits under (implicit flow). A handle
+        # (entity object, hdf5 group/dataset) is not such a value: what is later read through it is a fact about the file,
+        # whichever branch produced the handle -- and `return f(x)` inside a branch must not differ from
+        # `y = f(x)` inside the branch followed by `return y` after the join.
+        if not (v.ty and all(t[0] in ("obj", "h5") for t in v.ty if isinstance(t, tuple))):
+            for c, _ in fr.ctrl:
+                dep |= self.sym(c)
         raise _Return(v.with_dep(dep))
 
     def st_Raise(self, s):
